@@ -141,6 +141,37 @@ def run(rep, tier, seed, replay=None):
             if lab and strip(a) != strip(b):
                 rep.violation("C15: output of a wide-field case differs with diagnostics on  [case: %s]" % x[:160], {"kind": "config", "cfg": list(cfg), "lines": [x]})
                 nviol += 1
+    # ---------------- (1b) the sample corpus (bitmap / quality operators 2 22-2 37 that the generator does not produce)
+    # decoded and re-encoded under the 16 combinations, with the local tables of the test suite
+    if not replay and nviol == 0:
+        import glob, os
+        pre = "TABLES %s %s" % (os.path.join(vlib.REPO, "Test", "local_table_b"), os.path.join(vlib.REPO, "Test", "local_table_d"))
+        files = sorted(glob.glob(os.path.join(vlib.REPO, "Test", "BUFR", "*.bufr")))
+        cw = []
+        for f in files[:: (3 if tier == "quick" else 1)]:
+            d = open(f, "rb").read()
+            if b"BUFR" in d[:4096] and len(d) < 60000:
+                cw += ["D " + d.hex(), "R " + d.hex() + " -1"]
+        cref = ctx.run_c([pre, "CFG 0 0 0 0"] + cw)[2:]
+        for cfg in cfgs:
+            if cfg == (0, 0, 0, 0) or (tier == "quick" and cfg not in ((1, 1, 1, 1), (0, 0, 1, 0), (1, 0, 0, 0), (0, 1, 0, 1), (1, 1, 0, 1))):
+                continue
+            outs = ctx.run_c([pre, "CFG %d %d %d %d" % cfg] + cw)[2:]
+            if len(outs) < len(cw):
+                rep.violation("C15: with switches debug=%d verbose=%d meta=%d trimzero=%d the library crashed on a sample file: %s  [%s]" % (cfg + (cw[len(outs)][:80], ctx.sanitizer_summary())),
+                              {"kind": "config", "cfg": list(cfg), "lines": [pre, cw[len(outs)]]})
+                nviol += 1
+                break
+            for line, a, b in zip(cw, cref, outs):
+                rep.count((cfg, "corpus", line[:120], len(line))); feat["corpus_cfg_%d%d%d%d" % cfg] += 1
+                if strip(a) != strip(b):
+                    rep.violation("C15: output for a sample file differs with switches debug=%d verbose=%d meta=%d trimzero=%d: %s... vs %s...  [case: %s...]" % (cfg + (strip(b)[:100], strip(a)[:100], line[:100])),
+                                  {"kind": "config", "cfg": list(cfg), "lines": [pre, line], "with": b[:3000], "without": a[:3000]})
+                    nviol += 1
+                    break
+            if nviol:
+                break
+        ctx.run_c(["TABLES"])
     # ---------------- (2) histories: permutations with repetitions in one process vs each alone in a fresh process
     nh = 8 if tier == "quick" else 60
     batch_n = 12 if tier == "quick" else 40
